@@ -25,7 +25,7 @@ COMPONENTS = {"real": ["smpl_extract.actions (cue path), cuesheet, cdda/image, u
 ASSUMPTIONS = ["titles are safe unique words (hostile titles are C06's)", "all tracks AUDIO, first indices strictly increasing and inside the bin",
                "what simulation adds over plain generation here is only the torn-tail lengths, the block-size knob and the seam observation"]
 EXPECTED_PROBES = ["minutes_gt_0", "seconds_gt_0", "tail_not_multiple_of_4", "tail_not_multiple_of_2352", "multi_index", "untitled", "tracks_ge_3", "knob_not_default",
-                   "empty_last_track", "cli_crosscheck", "first_track_not_at_zero", "exported_twice"]
+                   "empty_last_track", "cli_crosscheck", "first_track_not_at_zero", "exported_twice", "keyword_like_title", "lr_titles"]
 SHRINK = {"max_attempts": 300, "max_seconds": 40.0, "simple_values": {"block": [4096]}}
 KNOBS = [4, 8, 64, 510, 4096, 4096, 4096, 8192, 65536]
 CLI_EVERY = 60
@@ -52,8 +52,20 @@ def gen_cdda_model(rng: random.Random, *, titles: str = "safe") -> dict:
             m2, s2, f2 = C.msf(sector + rng.randint(1, 4))
             idxs = [[1, mm, ss, ff], [2, m2, s2, f2]]
         title = None if rng.random() < 0.3 else safe_name(rng, used)
+        if title is not None and rng.random() < 0.12:
+            # titles are free text: they may look like cue keywords or like one half of an L/R pair
+            title = rng.choice(["Bonus Track %d remix" % rng.randint(1, 9), "Track %02d Audio" % (i + 2), "Index 01 live", "INDEX 01 00 00 %02d" % rng.randint(0, 9),
+                                "File x Binary", "Title", "Side %d L" % (i // 2), "Side %d R" % (i // 2), "Drums-%s" % "LR"[i % 2], "REM note"])
+            if title in used:
+                title = title + " %d" % i
+            used.add(title)
         tracks.append({"num": i + 1, "mode": rng.choice(["AUDIO", "AUDIO", "audio", "Audio"]), "title": title, "indices": idxs})
         sector += rng.randint(1, 8)
+    if nt >= 2 and rng.random() < 0.1:
+        # two tracks titled like the halves of a stereo pair: CDDA tracks are already stereo and stay separate files
+        a, b = rng.sample(range(nt), 2)
+        stem, sep = safe_name(rng, used, 10), rng.choice([" ", "-", " - "])
+        tracks[a]["title"], tracks[b]["title"] = stem + sep + "L", stem + sep + "R"
     last = C.first_sector(tracks[-1])
     tail = weighted(rng, [(0, 2), (1, 1), (2, 1), (3, 1), (4, 1), (5, 1), (2351, 1), (2352, 2), (2353, 1), (rng.randint(0, 4 * 2352), 4)])
     return {"bin_name": "disc.bin", "bin_key": "cd%d" % rng.getrandbits(30), "bin_len": last * C.SECTOR + tail, "tracks": tracks}
@@ -68,8 +80,8 @@ def check_tracks(res: RunResult, prop: str, model: dict, er: tool.ExportResult, 
     if er.exc:
         res.add(prop, "export_exception", "%sexport raised %s: %s [%s]" % (ctx, er.exc, er.exc_msg, er.exc_tb), exc=er.exc)
     want_paths = [t + ".wav" for t, _ in exp]
-    if sorted(er.reported) != sorted(want_paths) and not er.exc:
-        res.add(prop, "track_set", "%sreported %s, model %s" % (ctx, er.reported[:6], want_paths[:6]))
+    if er.reported != want_paths and not er.exc:
+        res.add(prop, "track_set", "%sreported %s, model %s (one file per track, in track order)" % (ctx, er.reported[:6], want_paths[:6]))
     if set(er.reported) != set(er.tree):
         res.add(prop, "reported_vs_disk", "%sreported %s, on disk %s" % (ctx, sorted(er.reported)[:6], sorted(er.tree)[:6]))
     concat = b""
@@ -118,6 +130,11 @@ def run(sc: dict) -> RunResult:
         res.probes["multi_index"] += 1
     if any(t.get("title") is None for t in model["tracks"]):
         res.probes["untitled"] += 1
+    ts = [t.get("title") or "" for t in model["tracks"]]
+    if any(x.lower().startswith(("bonus track", "track", "index", "file", "title", "rem")) for x in ts):
+        res.probes["keyword_like_title"] += 1
+    if any(x.endswith((" L", "-L")) for x in ts) and any(x.endswith((" R", "-R")) for x in ts):
+        res.probes["lr_titles"] += 1
     if len(model["tracks"]) >= 3:
         res.probes["tracks_ge_3"] += 1
     if block != 4096:
